@@ -41,6 +41,8 @@ def fam_length(case, ref, unit):
 
 
 def fam_subst(case, ref, unit):
+    if unit.get("subst_base_only") and case.ndev > 0:
+        return  # (thorough, frames) substitutions on the unit's default base case only; the deviated cases get the other families
     yield from faults.substitutions(case.b, tuple(unit.get("subst_alphabet", faults.SUBST)))
     if unit.get("tier") == "thorough" and len(case.b) <= 40 and case.ndev == 0:
         yield from faults.double_substitutions(case.b, alphabet=(0, 1, 0x7F, 0x80, 0xFF))
